@@ -120,7 +120,7 @@ class FuncRef:
         self.fn, self.self_val, self.closure = fn, self_val, closure
 
 
-BUILTIN_NAMES = {'set', 'dict', 'list', 'tuple', 'frozenset', 'sorted', 'len', 'isinstance', 'any', 'all', 'bool', 'str', 'int',
+BUILTIN_NAMES = {'abs', 'set', 'dict', 'list', 'tuple', 'frozenset', 'sorted', 'len', 'isinstance', 'any', 'all', 'bool', 'str', 'int',
                  'enumerate', 'zip', 'range', 'print', 'repr', 'min', 'max', 'sum', 'type', 'reversed', 'iter', 'next', 'map',
                  'filter', 'object', 'TypeError', 'ValueError', 'KeyError', 'IndexError', 'NotImplementedError', 'Exception',
                  'AttributeError', 'RuntimeError', 'AssertionError', 'StopIteration'}
@@ -751,7 +751,23 @@ class Interp:
                 if isinstance(p, ast.Constant):
                     parts.append(str(p.value))
                 elif isinstance(p, ast.FormattedValue):
-                    parts.append(self.text(self.eval(p.value, env, fn, depth)))
+                    v_ = self.eval(p.value, env, fn, depth)
+                    if p.format_spec is not None:
+                        spec = self.eval(p.format_spec, env, fn, depth)
+                        if isinstance(v_, Atom):
+                            raise Undecided('a name is formatted with a format specification')
+                        if not isinstance(v_, (str, int)) or isinstance(v_, bool) or not isinstance(spec, str):
+                            raise Undecided('format specification on an unmodelled value')
+                        if p.conversion in (ord('r'),):
+                            v_ = repr(v_)
+                        try:
+                            parts.append(format(v_, spec))
+                        except (ValueError, TypeError):
+                            raise Raised('ValueError', 'format specification')
+                    elif p.conversion == ord('r') and isinstance(v_, str):
+                        parts.append(repr(v_))
+                    else:
+                        parts.append(self.text(v_))
             return ''.join(parts)
         if isinstance(e, ast.Lambda):
             return Marker(('lambda', e, dict(env)))
@@ -1144,7 +1160,28 @@ class Interp:
             if name == 'map':
                 return [self.apply(args[0], [x], {}, None, fn, depth + 1) for x in items]
             return [x for x in items if self.truth(self.apply(args[0], [x], {}, None, fn, depth + 1) if args[0] is not None else x)]
-        if name in ('min', 'max', 'sum', 'int', 'object'):
+        if name in ('min', 'max') and args and not set(kwargs) - {'default'}:
+            items = self.iterate(args[0]) if len(args) == 1 else list(args)
+            if all(isinstance(x, int) for x in items) or all(isinstance(x, str) for x in items):
+                if not items:
+                    if 'default' in kwargs:
+                        return kwargs['default']
+                    raise Raised('ValueError', f'{name}() of an empty sequence')
+                return min(items) if name == 'min' else max(items)
+            raise Undecided(f'{name}() of values without a modelled order')
+        if name == 'sum' and 1 <= len(args) <= 2:
+            items = self.iterate(args[0])
+            if all(isinstance(x, int) for x in items) and (len(args) == 1 or isinstance(args[1], int)):
+                return sum(items, args[1] if len(args) == 2 else 0)
+            raise Undecided('sum of non-numbers')
+        if name == 'abs' and len(args) == 1 and isinstance(args[0], int):
+            return abs(args[0])
+        if name == 'int' and len(args) == 1 and isinstance(args[0], (int, str)):
+            try:
+                return int(args[0])
+            except ValueError:
+                raise Raised('ValueError')
+        if name in ('int', 'object'):
             raise Undecided(f'builtin {name}')
         raise Undecided(f'builtin {name}')
 
@@ -1254,8 +1291,19 @@ class Interp:
                 return recv.join(self.text(x) for x in self.iterate(args[0]))
             if name == 'format':
                 return recv
-            if name in ('strip', 'lower', 'upper', 'lstrip', 'rstrip') and not args:
+            if name in ('strip', 'lower', 'upper', 'lstrip', 'rstrip', 'splitlines', 'capitalize', 'title', 'isspace', 'isidentifier',
+                        'isdigit', 'isalpha') and not args and not kwargs:
                 return getattr(recv, name)()
+            if name in ('strip', 'lstrip', 'rstrip', 'split', 'rsplit', 'count', 'find', 'removeprefix', 'removesuffix', 'ljust', 'rjust') \
+                    and 1 <= len(args) <= 2 and all(isinstance(a, (str, int)) and not isinstance(a, bool) for a in args) and not kwargs:
+                try:
+                    return getattr(recv, name)(*args)
+                except (ValueError, TypeError) as exc_:
+                    raise Raised(type(exc_).__name__)
+            if name == 'splitlines' and not args and set(kwargs) <= {'keepends'} and all(isinstance(v, bool) for v in kwargs.values()):
+                return recv.splitlines(**kwargs)
+            if name == 'replace' and len(args) == 2 and all(isinstance(a, str) for a in args):
+                return recv.replace(*args)
             if name in ('startswith', 'endswith') and len(args) == 1 and isinstance(args[0], str):
                 return getattr(recv, name)(args[0])
         raise Undecided(f'method {type(recv).__name__}.{name}')
